@@ -31,6 +31,16 @@ def pipeline_jobs(ctx, n):
                 fp = 1 if (iface == "concurrent" and sh) else rng.choice([1, 2, 3, 4])
                 reqs.append({"iface": iface, "split": 0, "shuffle": sh, "repeat": False, "file_parallelism": fp, "process": rng.random() < 0.3,
                              "seed": rng.randrange(1, 2 ** 30)})
+        # several passes alive at once (A created, B created, A finishes, C created, B and C run to their ends): every pass still
+        # yields exactly its own split's examples
+        for iface in iterlib.ifaces_for(spec):
+            if iface in ("async", "tf") or (ctx.quick and iface not in ("rust", "sync")):
+                continue
+            streams = [{"split": 0, "repeat": False, "shuffle": 0, "file_parallelism": rng.choice([1, 2, 3])},
+                       {"split": rng.choice([0, 1]), "repeat": False, "shuffle": 0, "file_parallelism": 2},
+                       {"split": 0, "repeat": False, "shuffle": 0, "file_parallelism": 2}]
+            ops = [["P", 0], ["P", 1]] + [["P", 0]] * 40 + [["P", 2], ["P", 1]] * 40
+            reqs.append({"iface": iface, "split": 0, "shuffle": 0, "repeat": False, "file_parallelism": 2, "multi": {"streams": streams, "ops": ops}})
         jobs.append({"dataset": spec, "requests": reqs})
     return jobs
 
@@ -116,6 +126,26 @@ def run(ctx):
             runs += 1
             ref = r["reference"].get(str(q["split"]))
             one = {"dataset": job["dataset"], "requests": [q]}
+            if q.get("multi"):
+                if o.get("hang") or o.get("error"):
+                    ctx.report("iteration-hangs" if o.get("hang") else "iteration-error", f"{q['iface']} with three passes alive at once: {o.get('error') or 'no result within the watchdog'}", {"job": one})
+                    continue
+                nontrivial.add(json.dumps([job["dataset"]["format"], q["iface"], "multi", q["multi"]["streams"]]))
+                for si, st in enumerate(q["multi"]["streams"]):
+                    rs = r["reference"].get(str(st["split"]))
+                    if rs is None:
+                        continue
+                    got = [a for (k, i), a in zip(q["multi"]["ops"], o["out"]) if i == si and k == "P"]
+                    vals = [a for a in got if not isinstance(a, str)]
+                    errs = [a for a in got if isinstance(a, str) and a.startswith("error")]
+                    if errs or vals != rs["seq"]:
+                        missing = sorted(set(rs["seq"]) - set(vals))
+                        foreign = sorted(set(vals) - set(rs["seq"]))
+                        sig = "examples-lost" if missing else "examples-foreign" if foreign else "examples-duplicated"
+                        ctx.report(sig, f"{q['iface']} on {job['dataset']['format']}: pass {si} over split {st['split']} (one of three passes alive at once) returned {vals[:12]}"
+                                        f"{' then ' + errs[0] if errs else ''}; the split holds {rs['seq'][:12]}; missing {missing[:8]} foreign {foreign[:8]}", {"job": one})
+                        break
+                continue
             if ref is None:
                 if not o.get("error"):
                     ctx.report("absent-split-iterates", f"{q['iface']}: split {q['split']} holds nothing but iteration returned {str(o)[:80]}", {"job": one})
@@ -200,6 +230,17 @@ def replay(ctx, rp):
         return False
     r = iterlib.run_jobs([job])[0]
     q, o = job["requests"][0], r["results"][0]
+    if q.get("multi"):
+        ok = not o.get("error") and not o.get("hang")
+        for si, st in enumerate(q["multi"]["streams"]):
+            rs = r["reference"].get(str(st["split"]))
+            if rs is None or not ok:
+                continue
+            got = [a for (k, i), a in zip(q["multi"]["ops"], o["out"]) if i == si and k == "P"]
+            vals = [a for a in got if not isinstance(a, str)]
+            print(json.dumps({"pass": si, "split": st["split"], "got": vals, "expected": rs["seq"], "errors": [a for a in got if isinstance(a, str) and a.startswith("error")][:2]})[:600])
+            ok = ok and vals == rs["seq"] and not any(isinstance(a, str) and a.startswith("error") for a in got)
+        return ok
     ref = r["reference"].get(str(q["split"]), {"seq": []})
     got = [x - 100000 for x in o.get("out", [])] if q.get("process") else o.get("out", [])
     print(json.dumps({"expected": sorted(ref["seq"]), "got": got, "raw": {k: v for k, v in o.items() if k != "out"}})[:2000])
